@@ -22,6 +22,8 @@ LIB = {"InvalidAuthenticatorDataStructure", "InvalidCBORData"}
 
 
 def rand_ext(rng, depth=0):
+    if rng.random() < 0.04:
+        return rng.choice([0.5, 1.5, 1.1, -0.0, 1e300, 65504.0, 3.4028234663852886e+38])     # floats: outside the model, real code only
     t = rng.randrange(0, 9 if depth < 3 else 6)
     if t == 0:
         return rng.choice([0, 1, 23, 24, 255, 256, 65535, 65536, 2 ** 32, 2 ** 64 - 1])
@@ -45,7 +47,11 @@ def exotic_cbor(rng):
     if t == 0:   # tag n over a value of the wrong type
         tag = rng.choice([0, 1, 2, 3, 4, 5, 28, 29, 30, 35, 36, 37, 100, 256, 258, 260, 261, 1004, 43000, 55799])
         inner = rng.choice([b"\x03", b"\x63abc", b"\x41\x00", b"\x80", b"\xa0", b"\xf6", b"\x82\x01\x02", b"\x82\x01\x00", b"\x50" + bytes(16),
-                            b"\xf9\x7e\x00", b"\x20", b"\x82\x20\x00", b"\x83\x01\x02\x03"])
+                            b"\xf9\x7e\x00", b"\x20", b"\x82\x20\x00", b"\x83\x01\x02\x03",
+                            # wrongly typed members of decimal fractions / bigfloats / rationals, out-of-range dates, non-text regexps
+                            b"\x82\x61\x61\x01", b"\x82\x01\x61\x61", b"\x82\xf6\x01", b"\x82\x01\xf6", b"\x82\x41\x00\x01",
+                            b"\x1a\xff\xff\xff\xff", b"\x1b\xff\xff\xff\xff\xff\xff\xff\xff", b"\x3b\xff\xff\xff\xff\xff\xff\xff\xff",
+                            b"\x00", b"\x82\x01\x00", b"\x82\x00\x00", b"\xfb\x7f\xf0\x00\x00\x00\x00\x00\x00", b"\x62\x28\x3f"])
         return cbor2.dumps(cbor2.CBORTag(tag, 0))[:-1] + inner
     if t == 1:
         return bytes([0xc0 + rng.randrange(24)]) + rng.bytes_(rng.randrange(0, 6))
@@ -95,6 +101,17 @@ def work(tasks, idx):
                                    rng.randrange(0, 4))
                 extv = {nm: (rng.choice([0, 1, 2, 3, 4, 255, -1, True, None, "x", b"\x00"]) if rng.random() < 0.5 else rand_ext(rng)) for nm in names}
             ext = cbor2.dumps(extv) if extv is not None else None
+            if rng.random() < 0.05:
+                # the work-around's byte pattern planted elsewhere in the layout: inside the RP ID hash, or starting in the
+                # counter and running on through the AAGUID
+                bad = bytes.fromhex("a301634f4b500327206745643235353139")
+                k = rng.choice([rng.randrange(0, 16), 33, 34, 35, 36])
+                if k < 16:
+                    rp = rp[:k] + bad + rp[k + 17:]
+                else:
+                    hdr = bytearray(counter.to_bytes(4, "big") + aaguid)
+                    hdr[k - 33:k - 33 + 17] = bad
+                    counter, aaguid = int.from_bytes(hdr[:4], "big"), bytes(hdr[4:20])
             ad = core.auth_data(rp, flags, counter, aaguid=aaguid, cred_id=cid, cose=cose, ext=ext)
             mode = rng.random()
             label = "canonical"
